@@ -333,17 +333,30 @@ def _pwsum(cfg, rng):
 # pspace_ops
 # ==========================================================================
 
-def _leaf(cfg, rng, key, S):
-    """Small linear leaf operator S -> S for product-space combinators."""
+def _leaf(cfg, rng, key, S, cache=None):
+    """Small linear leaf operator S -> S for product-space combinators.
+    With a `cache` and the option `share`, leaves of the same kind are the
+    very same object (BroadcastOperator(A, A), a block matrix with one
+    operator in several slots ...)."""
     o = odl()
-    kind = opt(cfg, rng, key, ['id', 'scale', 'mult', 'zero'])
+    kind = opt(cfg, rng, key, ['id', 'scale', 'mult', 'zero', 'sum'])
+    share = cache is not None and opt(cfg, rng, 'share', [False, False, True])
+    if share and kind in cache:
+        return cache[kind]
     if kind == 'id':
-        return o.IdentityOperator(S)
-    if kind == 'scale':
-        return o.ScalingOperator(S, 1.5)
-    if kind == 'zero':
-        return o.ZeroOperator(S)
-    return o.MultiplyOperator(SP.rand_elem(S, data(cfg, key)))
+        op = o.IdentityOperator(S)
+    elif kind == 'scale':
+        op = o.ScalingOperator(S, 1.5)
+    elif kind == 'zero':
+        op = o.ZeroOperator(S)
+    elif kind == 'sum':
+        op = o.IdentityOperator(S) + o.MultiplyOperator(
+            SP.rand_elem(S, data(cfg, key)))
+    else:
+        op = o.MultiplyOperator(SP.rand_elem(S, data(cfg, key)))
+    if cache is not None:
+        cache.setdefault(kind, op)
+    return op
 
 
 @recipe('ProductSpaceOperator', fam='pspace', weight=2)
@@ -353,11 +366,12 @@ def _pso(cfg, rng):
     nr = opt(cfg, rng, 'nr', [1, 2, 3])
     nc = opt(cfg, rng, 'nc', [1, 2, 3])
     rows = []
+    cache = {}
     for i in range(nr):
         row = []
         for j in range(nc):
             if opt(cfg, rng, 'e%d%d' % (i, j), [True, True, False]):
-                row.append(_leaf(cfg, rng, 'l%d%d' % (i, j), S))
+                row.append(_leaf(cfg, rng, 'l%d%d' % (i, j), S, cache))
             else:
                 row.append(None)
         rows.append(row)
@@ -406,7 +420,8 @@ def _cprojadj(cfg, rng):
 def _broadcast(cfg, rng):
     S = space(cfg, rng, want='real')
     n = opt(cfg, rng, 'n', [1, 2, 3])
-    return odl().BroadcastOperator(*[_leaf(cfg, rng, 'l%d' % i, S)
+    cache = {}
+    return odl().BroadcastOperator(*[_leaf(cfg, rng, 'l%d' % i, S, cache)
                                      for i in range(n)])
 
 
@@ -414,7 +429,8 @@ def _broadcast(cfg, rng):
 def _reduction(cfg, rng):
     S = space(cfg, rng, want='real')
     n = opt(cfg, rng, 'n', [1, 2, 3])
-    return odl().ReductionOperator(*[_leaf(cfg, rng, 'l%d' % i, S)
+    cache = {}
+    return odl().ReductionOperator(*[_leaf(cfg, rng, 'l%d' % i, S, cache)
                                      for i in range(n)])
 
 
@@ -422,7 +438,8 @@ def _reduction(cfg, rng):
 def _diagonal(cfg, rng):
     S = space(cfg, rng, want='real')
     n = opt(cfg, rng, 'n', [1, 2, 3])
-    return odl().DiagonalOperator(*[_leaf(cfg, rng, 'l%d' % i, S)
+    cache = {}
+    return odl().DiagonalOperator(*[_leaf(cfg, rng, 'l%d' % i, S, cache)
                                     for i in range(n)])
 
 
@@ -1087,8 +1104,12 @@ def _gen_tree(rng, depth, leaves=None):
     if depth == 0 or rng.random() < 0.25:
         return ['leaf', rng.choice(leaves), rng.getrandbits(16)]
     op = rng.choice(['add', 'add', 'sub', 'sub', 'lscal', 'lscal', 'rscal',
-                     'comp', 'lvec', 'rvec', 'neg', 'vecadd', 'div'])
-    if op in ('add', 'sub', 'comp'):
+                     'comp', 'lvec', 'rvec', 'neg', 'vecadd', 'div',
+                     'same_add', 'same_comp', 'pw', 'same_pw'])
+    if op in ('same_add', 'same_comp', 'same_pw'):
+        # the very same operator object on both sides
+        return [op, _gen_tree(rng, depth - 1, leaves)]
+    if op in ('add', 'sub', 'comp', 'pw'):
         return [op, _gen_tree(rng, depth - 1, leaves),
                 _gen_tree(rng, depth - 1, leaves)]
     if op in ('lscal', 'rscal', 'div'):
@@ -1156,6 +1177,18 @@ def _build_tree(t, S, cfg):
         return _build_tree(t[1], S, cfg) - _build_tree(t[2], S, cfg)
     if op == 'comp':
         return _build_tree(t[1], S, cfg) * _build_tree(t[2], S, cfg)
+    if op == 'pw':
+        from odl.operator.operator import OperatorPointwiseProduct
+        return OperatorPointwiseProduct(_build_tree(t[1], S, cfg),
+                                        _build_tree(t[2], S, cfg))
+    if op in ('same_add', 'same_comp', 'same_pw'):
+        B = _build_tree(t[1], S, cfg)
+        if op == 'same_add':
+            return B + B
+        if op == 'same_comp':
+            return B * B
+        from odl.operator.operator import OperatorPointwiseProduct
+        return OperatorPointwiseProduct(B, B)
     if op == 'lscal':
         return t[1] * _build_tree(t[2], S, cfg)
     if op == 'rscal':
@@ -1179,9 +1212,12 @@ def _build_tree(t, S, cfg):
 def tree_str(t):
     if t[0] == 'leaf':
         return t[1]
-    if t[0] in ('add', 'sub', 'comp'):
-        sym = {'add': '+', 'sub': '-', 'comp': 'o'}[t[0]]
+    if t[0] in ('add', 'sub', 'comp', 'pw'):
+        sym = {'add': '+', 'sub': '-', 'comp': 'o', 'pw': '.*'}[t[0]]
         return '({}{}{})'.format(tree_str(t[1]), sym, tree_str(t[2]))
+    if t[0] in ('same_add', 'same_comp', 'same_pw'):
+        sym = {'same_add': '+', 'same_comp': 'o', 'same_pw': '.*'}[t[0]]
+        return '(B{}B: B={})'.format(sym, tree_str(t[1]))
     if t[0] in ('lscal', 'rscal', 'div'):
         return '{}[{}]({})'.format(t[0], t[1], tree_str(t[2]))
     if t[0] == 'neg':
